@@ -9,7 +9,7 @@ pub fn run(ctx: &Ctx) -> ! {
     let hp = HistoryParams::standard(ctx.tier);
     let spec = RunSpec {
         shards: 16,
-        cases_per_shard: ctx.tier.pick(100, 1200),
+        cases_per_shard: ctx.tier.pick(100, 400),
         cfg_len: CFG_LEN,
         min_ops: 3,
         max_ops: ctx.tier.pick(26, 70),
